@@ -200,8 +200,8 @@ fn gen_transport(ch: &mut Chooser) -> Transport {
 pub fn c19_scenarios(base_seed: u64, tier: Tier) -> Vec<Scenario> {
     let scale: f64 = std::env::var("VERIF_BUDGET_SCALE").ok().and_then(|s| s.parse().ok()).unwrap_or(1.0);
     let (worlds, per_world) = match tier {
-        Tier::Quick => (96u64, 40u64),
-        Tier::Thorough => (1600u64, 60u64),
+        Tier::Quick => (480u64, 50u64),
+        Tier::Thorough => (6000u64, 80u64),
     };
     let worlds = ((worlds as f64 * scale).ceil() as u64).max(1);
     let mut out = Vec::new();
